@@ -50,6 +50,17 @@
                                   name: exactly prefix_for_namespace (default prefix included); a
                                   no-namespace name is never refused
     C09_fullname                  the property as worded, for node_name_ref on every element / attribute node
+  The name types that consume these results (xmlname/*.rs, Model/XmlName.lean):
+    C09_parse_full_name_inverse   OwnedName::parse_full_name / CreateName::parse_full_name with the element-rule
+                                  lookup of the node's scope give back exactly what name_ref + to_owned
+                                  reported, for the string full_name wrote — whenever that lookup resolves the
+                                  written prefix to the name's namespace; C09_parse_full_name_resolves: which is
+                                  always the case for a name in a real namespace, and for a no-namespace name
+                                  iff no default namespace is in scope (the attribute-style spelling)
+    C09_to_owned_round_trip       to_owned then to_ref / maybe_to_ref / to_create returns the ids, tables unchanged
+                                  (C09_interned_found: the side conditions hold for duplicate-free tables)
+    C09_has_unprefixed_namespace  = in_default_namespace of to_owned
+    C09_with_suffix, C09_with_default_namespace
 -/
 import XotModel.Lemmas.Scope
 import XotModel.Lemmas.ScopeStack
@@ -58,6 +69,7 @@ import XotModel.Lemmas.ScopeSerialise
 import XotModel.Lemmas.ScopeUnres
 import XotModel.Lemmas.ScopeFirst
 import XotModel.Lemmas.ScopeName
+import XotModel.Lemmas.XmlName
 
 namespace XotModel.Props
 open XotModel
@@ -600,5 +612,175 @@ example : nodeNameRef c09QnEnv (c09El 3 [(0, 2), (2, 2)] [c09Attr]) [2] = some (
 /-- `namespace_prefix(…, A, non_empty)` on `<a xmlns="A" xmlns:p="A"/>`: `""` without, `p` with. -/
 example : namespacePrefix (c09El 3 [(0, 2), (2, 2)] []) [] 2 false = some (some 0) := by decide
 example : namespacePrefix (c09El 3 [(0, 2), (2, 2)] []) [] 2 true = some (some 2) := by decide
+
+/-! ### The name types (xmlname/*.rs, Model/XmlName.lean): how `name_ref` / `full_name` are consumed -/
+
+/-- **`parse_full_name` is the inverse of `full_name` in the scope that produced it.**  If
+    `name_ref(name, node) = Ok(p)`, then `full_name(node, name)` is the `full_name()` of
+    `to_owned()`, and parsing that string back with the element-rule lookup of the node's scope
+    (`elementLookup`: a known prefix bound here; the empty prefix without default namespace = no
+    namespace) gives the same `OwnedName` — local name, namespace AND prefix — and, through
+    `CreateName::parse_full_name`, the same name id without touching the tables.  Hypotheses: neither
+    the prefix nor the local name contains `:` (the parser splits at the first colon), and the lookup
+    resolves the written prefix to the name's namespace (`C09_parse_full_name_resolves`). -/
+theorem C09_parse_full_name_inverse (env : Env) (chain : List Tree) (name p : Nat)
+    (hp : nameRefChain env chain name = .ok p)
+    (hcp : ':' ∉ env.prefixStr p) (hcl : ':' ∉ env.localName name)
+    (hres : elementLookup env chain (env.prefixStr p) = some (env.nsOfName name)) :
+    fullNameChain env chain name = .ok (RefName.toOwned env ⟨name, p⟩).fullName ∧
+    OwnedName.parseFullName (RefName.toOwned env ⟨name, p⟩).fullName (elementLookupStr env chain) =
+      .ok (RefName.toOwned env ⟨name, p⟩) ∧
+    (env.nameId? (env.localName name) (env.nsOfName name) = some name →
+      createParseFullName env (RefName.toOwned env ⟨name, p⟩).fullName (elementLookup env chain) =
+        .ok (env, name)) := by
+  have hsplit : splitFullName (RefName.toOwned env ⟨name, p⟩).fullName = (env.prefixStr p, env.localName name) := by
+    unfold OwnedName.fullName RefName.toOwned
+    cases he : (env.prefixStr p).isEmpty
+    · simp only [Bool.not_false, if_true]
+      exact splitFullName_prefixed _ _ hcp
+    · simp only [Bool.not_true, Bool.false_eq_true, if_false]
+      rw [splitFullName_nocolon _ hcl, List.isEmpty_iff.mp he]
+  refine ⟨?_, ?_, ?_⟩
+  · rw [fullNameChain_eq, hp, toOwned_fullName]
+  · unfold OwnedName.parseFullName OwnedName.prefixed elementLookupStr
+    rw [hsplit]
+    simp [hres, RefName.toOwned]
+  · intro hname
+    unfold createParseFullName createPrefixed
+    rw [hsplit]
+    simp [hres, Env.addNameNs, hname]
+
+/-- When the lookup of `C09_parse_full_name_inverse` resolves the reported prefix (`hfound`: the prefix
+    string is found again under its id, true for duplicate-free tables, `C09_interned_found`).  A name
+    in a REAL namespace: always — the prefix `name_ref` reports is bound to the namespace
+    (`C09_prefix_sound`), the default prefix included.  A name in NO namespace is written unprefixed
+    and reads back (element rule) as no namespace exactly when no default namespace is in scope;
+    under a default namespace the unprefixed spelling — which `full_name` uses for attribute-style
+    names — parses into that default namespace: there the inverse does not hold, by design. -/
+theorem C09_parse_full_name_resolves (env : Env) (chain : List Tree) (name p : Nat)
+    (hp : nameRefChain env chain name = .ok p)
+    (hfound : env.prefixId? (env.prefixStr p) = some p) :
+    (env.nsOfName name ≠ Env.noNamespace →
+      elementLookup env chain (env.prefixStr p) = some (env.nsOfName name)) ∧
+    (env.nsOfName name = Env.noNamespace → env.prefixStr Env.emptyPrefix = [] →
+      (elementLookup env chain (env.prefixStr p) = some (env.nsOfName name) ↔
+        namespaceForPrefixChain chain Env.emptyPrefix = none)) := by
+  refine ⟨fun hns => elementLookup_of_nameRef env chain name p hp hns hfound, ?_⟩
+  intro hns hempty
+  have hp0 := nameRef_noNamespace env chain name p hp hns
+  subst hp0
+  simp only [elementLookup, hfound, hns]
+  cases hq : namespaceForPrefixChain chain Env.emptyPrefix with
+  | none => simp [hempty]
+  | some ns' =>
+    have hne : ns' ≠ Env.noNamespace := by
+      intro e
+      have := scopeSpecChain_empty_ne chain
+      rw [← namespaceForPrefixChain_eq, hq, e] at this
+      exact this rfl
+    simpa using hne
+
+/-- `to_owned` followed by `to_ref` / `maybe_to_ref` / `to_create` gives the ids back and leaves the
+    tables alone, when each of the three strings is found again under its id. -/
+theorem C09_to_owned_round_trip (env : Env) (r : RefName)
+    (hp : env.prefixId? (env.prefixStr r.prefixId) = some r.prefixId)
+    (hn : env.namespaceId? (env.namespaceStr (env.nsOfName r.nameId)) = some (env.nsOfName r.nameId))
+    (hname : env.nameId? (env.localName r.nameId) (env.nsOfName r.nameId) = some r.nameId) :
+    (r.toOwned env).toRef env = (env, r) ∧ (r.toOwned env).maybeToRef env = some r ∧
+    (r.toOwned env).toCreate env = (env, r.nameId) := by
+  have hp' : List.findIdx? (fun x => x == env.prefixStr r.prefixId) env.prefixes = some r.prefixId := hp
+  refine ⟨?_, ?_, ?_⟩
+  · simp [OwnedName.toRef, RefName.toOwned, Env.addPrefix, Env.addNamespace, Env.addNameNs, hp', hn, hname]
+  · simp [OwnedName.maybeToRef, RefName.toOwned, hp, hn, hname]
+  · simp [OwnedName.toCreate, RefName.toOwned, Env.addNamespace, Env.addNameNs, hn, hname]
+
+/-- The side conditions above hold for every id in range of duplicate-free tables (interning: C08). -/
+theorem C09_interned_found (env : Env) :
+    (env.prefixes.Nodup → ∀ p, p < env.prefixes.length → env.prefixId? (env.prefixStr p) = some p) ∧
+    (env.namespaces.Nodup → ∀ ns, ns < env.namespaces.length →
+      env.namespaceId? (env.namespaceStr ns) = some ns) ∧
+    (env.names.Nodup → ∀ n, n < env.names.length →
+      env.nameId? (env.localName n) (env.nsOfName n) = some n) := by
+  refine ⟨fun hnd p h => ?_, fun hnd ns h => ?_, fun hnd n h => ?_⟩
+  · have := findIdx?_getElem_of_nodup env.prefixes p h hnd
+    simpa [Env.prefixId?, Env.prefixStr, List.getD_eq_getElem?_getD, h] using this
+  · have := findIdx?_getElem_of_nodup env.namespaces ns h hnd
+    simpa [Env.namespaceId?, Env.namespaceStr, List.getD_eq_getElem?_getD, h] using this
+  · have := findIdx?_getElem_of_nodup env.names n h hnd
+    simpa [Env.nameId?, Env.localName, Env.nsOfName, List.getD_eq_getElem?_getD, h] using this
+
+/-- `RefName::has_unprefixed_namespace` (on ids) is `OwnedName::in_default_namespace` (on strings) of
+    `to_owned()`, when only the no-namespace id has the empty URI and only the empty prefix id the
+    empty string. -/
+theorem C09_has_unprefixed_namespace (env : Env) (r : RefName)
+    (hns : env.namespaceStr (env.nsOfName r.nameId) = [] ↔ env.nsOfName r.nameId = Env.noNamespace)
+    (hpf : env.prefixStr r.prefixId = [] ↔ r.prefixId = Env.emptyPrefix) :
+    r.hasUnprefixedNamespace env = (r.toOwned env).inDefaultNamespace := by
+  unfold RefName.hasUnprefixedNamespace OwnedName.inDefaultNamespace RefName.toOwned
+  have a : (env.nsOfName r.nameId != Env.noNamespace) = !(env.namespaceStr (env.nsOfName r.nameId)).isEmpty := by
+    cases hE : (env.namespaceStr (env.nsOfName r.nameId)).isEmpty
+    · have : env.nsOfName r.nameId ≠ Env.noNamespace := fun e => by
+        have := hns.mpr e
+        simp [this] at hE
+      simpa using this
+    · have := hns.mp (List.isEmpty_iff.mp hE)
+      simp [this]
+  have b : (Env.emptyPrefix == r.prefixId) = (env.prefixStr r.prefixId).isEmpty := by
+    cases hE : (env.prefixStr r.prefixId).isEmpty
+    · have : Env.emptyPrefix ≠ r.prefixId := fun e => by
+        have := hpf.mpr e.symm
+        simp [this] at hE
+      simpa using this
+    · have := hpf.mp (List.isEmpty_iff.mp hE)
+      simp [this]
+  simp only [a, b]
+
+/-- `with_suffix` appends `*` to the local name only: same namespace, same prefix, and the written
+    name gets the `*` at its end. -/
+theorem C09_with_suffix (o : OwnedName) :
+    o.withSuffix.fullName = o.fullName ++ ['*'] ∧ o.withSuffix.namespaceStr = o.namespaceStr ∧
+    o.withSuffix.prefixStr = o.prefixStr ∧ o.withSuffix.localName = o.localName ++ ['*'] := by
+  unfold OwnedName.withSuffix OwnedName.fullName
+  cases o.prefixStr.isEmpty <;> simp
+
+/-- `with_default_namespace(ns)` puts an unprefixed no-namespace name into `ns` (it is then
+    `in_default_namespace` for a non-empty `ns`) and leaves every other name alone. -/
+theorem C09_with_default_namespace (o : OwnedName) (ns : Str) :
+    (o.prefixStr = [] → o.namespaceStr = [] →
+      o.withDefaultNamespace ns = { o with namespaceStr := ns } ∧
+      (o.withDefaultNamespace ns).inDefaultNamespace = !ns.isEmpty) ∧
+    (¬ (o.prefixStr = [] ∧ o.namespaceStr = []) → o.withDefaultNamespace ns = o) := by
+  unfold OwnedName.withDefaultNamespace OwnedName.inDefaultNamespace
+  constructor
+  · intro h1 h2; simp [h1, h2]
+  · intro h
+    by_cases h1 : o.prefixStr = []
+    · have h2 : o.namespaceStr ≠ [] := fun e => h ⟨h1, e⟩
+      simp [h1, h2]
+    · simp [h1]
+
+/-- Non-vacuity, on `<a xmlns="A" xmlns:p="A" p:x=""/>` at the attribute: `{A}x` is written `p:x`, parsed
+    back to `(x, A, p)` and to name id 0; the tables of `c09QnEnv` are duplicate-free; the element `a`
+    itself is written unprefixed and parsed back through the default namespace. -/
+example : nameRefChain c09QnEnv [c09Attr, c09El 3 [(0, 2), (2, 2)] [c09Attr]] 0 = .ok 2 ∧
+    (RefName.toOwned c09QnEnv ⟨0, 2⟩) = ⟨['x'], ['A'], ['p']⟩ ∧
+    OwnedName.parseFullName ['p', ':', 'x']
+      (elementLookupStr c09QnEnv [c09Attr, c09El 3 [(0, 2), (2, 2)] [c09Attr]]) = .ok ⟨['x'], ['A'], ['p']⟩ ∧
+    (createParseFullName c09QnEnv ['p', ':', 'x']
+      (elementLookup c09QnEnv [c09Attr, c09El 3 [(0, 2), (2, 2)] [c09Attr]])).toOption.map (·.2) = some 0 ∧
+    c09QnEnv.prefixes.Nodup ∧ c09QnEnv.namespaces.Nodup ∧ c09QnEnv.names.Nodup ∧
+    nameRefChain c09QnEnv [c09El 3 [(0, 2)] []] 3 = .ok 0 ∧
+    OwnedName.parseFullName ['a'] (elementLookupStr c09QnEnv [c09El 3 [(0, 2)] []]) = .ok ⟨['a'], ['A'], []⟩ :=
+  ⟨by rfl, by decide, by rfl, by rfl, by decide, by decide, by decide, by rfl, by rfl⟩
+/-- The limit: the no-namespace name `c` at an element under `xmlns="A"` is written `c` (attribute
+    style) and parses, by the element rule, into `A`. -/
+example : nameRefChain c09QnEnv [c09El 1 [] [], c09El 3 [(0, 2)] []] 2 = .ok 0 ∧
+    OwnedName.parseFullName ['c'] (elementLookupStr c09QnEnv [c09El 1 [] [], c09El 3 [(0, 2)] []]) =
+      .ok ⟨['c'], ['A'], []⟩ ∧
+    namespaceForPrefixChain [c09El 1 [] [], c09El 3 [(0, 2)] []] Env.emptyPrefix = some 2 :=
+  ⟨by rfl, by rfl, by decide⟩
+example : (RefName.toOwned c09QnEnv ⟨0, 2⟩).withSuffix.fullName = ['p', ':', 'x', '*'] ∧
+    (OwnedName.withDefaultNamespace ⟨['c'], [], []⟩ ['B']).inDefaultNamespace = true ∧
+    (RefName.hasUnprefixedNamespace c09QnEnv ⟨3, 0⟩) = true := by decide
 
 end XotModel.Props
